@@ -325,6 +325,11 @@ func (p *Parser) parseExpression(precedence ast.Priority) ast.Node {
 	}
 	prefix := p.prefixParseFns[p.curToken.Type()]
 	if prefix == nil {
+		if p.curToken.Type() == token.RPAREN && p.peekTokenIs(token.EOL) {
+			// `()` at the end of a line: the => of a parameterless lambda may follow on the next one.
+			p.continuationNeeded = true
+			return nil
+		}
 		if !p.peekTokenIs(token.LAMBDA) { // To make () => { ... } without errors.
 			p.noPrefixParseFnError(p.curToken)
 		}
